@@ -434,7 +434,10 @@ func findMaxOccurence(row []int) int {
 	}
 	var max int = 0
 	var maxElem int
-	for k, v := range countmap {
+	// walk the row, not the map: on equal counts the first value of the row
+	// wins, independent of map iteration order
+	for _, k := range row {
+		v := countmap[k]
 		if v > max {
 			max = v
 			maxElem = k
